@@ -54,6 +54,48 @@ class Edge(tuple):
     __slots__ = ()
 
 
+def switch_facts(fn, b, t, d):
+    """facts on the edges of one switch whose discriminant evaluates to term d"""
+    out = []
+    edges = fn.term_succs(b)
+    if t["dty"] == "bool":
+        kind, a, bb_, pos = norm_cond(d)
+        for (dst, lab) in edges:
+            truth = (lab != "0")
+            out.append(((b, dst, lab), ("cond", kind, a, bb_, truth == pos)))
+        # a success predicate also yields a succ fact
+        if kind == "success":
+            for (dst, lab) in edges:
+                truth = (lab != "0")
+                out.append(((b, dst, lab), ("succ", a, truth == pos)))
+    elif d[0] == "discr":
+        X = d[1]
+        vmap = dict(d[2]) if d[2] else {}
+        names = set(vmap.values())
+        listed = set()
+        for (dst, lab) in edges:
+            if lab == "otherwise":
+                continue
+            listed.add(int(lab))
+        for (dst, lab) in edges:
+            if lab == "otherwise":
+                rest = [n for v, n in vmap.items() if v not in listed]
+                vs = rest
+            else:
+                vs = [vmap.get(int(lab), "?")]
+            for vn in vs:
+                if X[0] == "try" and vn in ("Continue", "Break"):
+                    out.append(((b, dst, lab), ("succ", X[1], vn == "Continue")))
+                elif names <= {"Ok", "Err"} or names <= {"Some", "None"}:
+                    out.append(((b, dst, lab), ("succ", X, vn in ("Ok", "Some"))))
+                else:
+                    out.append(((b, dst, lab), ("variant", X, vn)))
+    else:
+        for (dst, lab) in edges:
+            out.append(((b, dst, lab), ("int", d, lab)))
+    return out
+
+
 def branch_facts(prog, fn, cx=None):
     """For every switch in normal flow: list of (edge, fact).
     fact = ('cond', kind, a, b, holds)  — comparison/predicate `kind(a,b)` is `holds` on this edge
@@ -67,42 +109,7 @@ def branch_facts(prog, fn, cx=None):
         if t["k"] != "switch":
             continue
         d = cx.operand(t["discr"])
-        edges = fn.term_succs(b)
-        if t["dty"] == "bool":
-            kind, a, bb_, pos = norm_cond(d)
-            for (dst, lab) in edges:
-                truth = (lab != "0")
-                out.append(((b, dst, lab), ("cond", kind, a, bb_, truth == pos)))
-            # a success predicate also yields a succ fact
-            if kind == "success":
-                for (dst, lab) in edges:
-                    truth = (lab != "0")
-                    out.append(((b, dst, lab), ("succ", a, truth == pos)))
-        elif d[0] == "discr":
-            X = d[1]
-            vmap = dict(d[2]) if d[2] else {}
-            names = set(vmap.values())
-            listed = set()
-            for (dst, lab) in edges:
-                if lab == "otherwise":
-                    continue
-                listed.add(int(lab))
-            for (dst, lab) in edges:
-                if lab == "otherwise":
-                    rest = [n for v, n in vmap.items() if v not in listed]
-                    vs = rest
-                else:
-                    vs = [vmap.get(int(lab), "?")]
-                for vn in vs:
-                    if X[0] == "try" and vn in ("Continue", "Break"):
-                        out.append(((b, dst, lab), ("succ", X[1], vn == "Continue")))
-                    elif names <= {"Ok", "Err"} or names <= {"Some", "None"}:
-                        out.append(((b, dst, lab), ("succ", X, vn in ("Ok", "Some"))))
-                    else:
-                        out.append(((b, dst, lab), ("variant", X, vn)))
-        else:
-            for (dst, lab) in edges:
-                out.append(((b, dst, lab), ("int", d, lab)))
+        out += switch_facts(fn, b, t, d)
     # `cond.then_some(v).ok_or(E)?` / `cond.then(|| v)`: the Option/Result is Some/Ok exactly when cond holds
     extra = []
     for (e, fa) in out:
